@@ -151,6 +151,20 @@ def run_replay(spec, cfg, ob, prop, idx):
     if code:
         reproduced, detail = exec_native(code)
         rec["native"] = dict(reproduced=reproduced, detail=detail)
+    elif getattr(spec, "pure_replay", False):
+        # contracts on pure functions of plain values: the model's arguments through the real function under CPython,
+        # the contract's clauses evaluated on the real result (pyvc/replay_pure.py)
+        try:
+            from pyvc.replay_pure import concrete_replay
+
+            out = concrete_replay(spec, cfg, model, ob, REPO)
+        except Exception as e:  # noqa: BLE001
+            out = None
+            rec["replay_builder_error"] = repr(e)
+        if out is not None:
+            reproduced, detail, payload = out
+            rec["native_call"] = payload
+            rec["native"] = dict(reproduced=reproduced, detail=detail)
     with open(path, "w") as f:
         json.dump(rec, f, indent=1, default=str)
     return path, reproduced
